@@ -483,22 +483,25 @@ func (cr *c10Runner) feedSig(stream []byte, desc string) {
 		if err != nil {
 			return err
 		}
-		if _, err := pwr.ComputeHashInfo(si); err != nil {
-			return err
-		}
+		_, herr := pwr.ComputeHashInfo(si)
 		// a validating-pool write that uses the grouping
 		vp := &pwr.ValidatingPool{Pool: &recWPool{data: map[int64][]byte{}, closed: map[int64]bool{}, sizes: make([]int64, len(si.Container.Files))}, Container: si.Container, Signature: si}
 		for i, f := range si.Container.Files {
 			w, err := vp.GetWriter(int64(i))
 			if err != nil {
-				return err
+				herr = err
+				break
 			}
 			if e := s.pair.New.E[f.Path]; e != nil {
 				w.Write(e.Data)
 			}
 			w.Close()
 		}
-		return pwr.AssertValid(s.newDir, si)
+		// the validator gets the signature whatever the grouping said (its file worker builds the grouping itself)
+		if verr := pwr.AssertValid(s.newDir, si); verr != nil {
+			return verr
+		}
+		return herr
 	})
 }
 
@@ -507,7 +510,8 @@ func (cr *c10Runner) feedSigInfo(cont *tlc.Container, hs []*pwr.BlockHash, desc 
 	fmt.Fprintf(os.Stderr, "mutant %s\n", desc)
 	s := cr.seeds
 	cr.call("hashinfo+validatingpool", desc, func() error {
-		si := &pwr.SignatureInfo{Container: cont}
+		// a caller-built slice of exactly that many hashes (no spare capacity a stray re-slice could hide in)
+		si := &pwr.SignatureInfo{Container: cont, Hashes: make([]wsync.BlockHash, 0, len(hs))}
 		for i, h := range hs {
 			si.Hashes = append(si.Hashes, wsync.BlockHash{FileIndex: 0, BlockIndex: int64(i), WeakHash: h.WeakHash, StrongHash: h.StrongHash})
 		}
